@@ -4,6 +4,7 @@ import DimodProofs.BKInv
 import DimodProofs.BKLabels
 import DimodProofs.BKQue
 import DimodProofs.ReduceGiven
+import DimodProofs.HocOptions
 
 /-! # C15 — higher-order reduction is exact on consistent assignments; the penalty is never negative
 
@@ -533,6 +534,60 @@ theorem hoc_reports_poly_energy (poly : List (LTerm × Rat)) (keep : Bool) (resp
     | true => exact hsub rfl v hv
     | false => exact hv
   exact (hy (v, row v) (List.mem_map.2 ⟨v, hmem, rfl⟩)).symm
+
+/-! ## `HigherOrderComposite.sample_poly` over its option grid, for any child sampler -/
+
+/-- `penalty_satisfaction` of a row is true iff **all** product constraints of the reduction hold in it -/
+theorem penalty_satisfaction_all_products (reduction : List (Pair × Label)) (x : Label → Rat) :
+    penaltySatisfied reduction x = true ↔ ∀ c ∈ reduction, x c.1.1 * x c.1.2 = x c.2 := penaltySatisfied_iff reduction x
+
+/-- **`sample_poly(poly, penalty_strength, keep_penalty_variables, discard_unsatisfied, initial_state=…)` for
+    every option and every child sampler** (`Red.samplePoly`; the child is a parameter: any function from the
+    quadratic model and the expanded initial state to a response).  Whenever it returns:
+    * every returned row comes from a row `x` of the child's response; with `discard_unsatisfied` that row
+      satisfies ALL product constraints; its columns are the child's variables (`keep_penalty_variables`) or
+      the polynomial's, with the values of `x`; its energy is the polynomial's energy of `x`; its
+      `penalty_satisfaction` is true iff `discard_unsatisfied` or all product constraints hold in `x`;
+    * a row of the child is returned iff `discard_unsatisfied` is off or ALL its product constraints hold
+      (the numbers of rows agree);
+    With `hoc_reports_poly_energy` the reported energy is the polynomial's energy of every sample agreeing
+    with the returned columns. -/
+theorem sample_poly_option_grid (child : Bq Label → Option (List (Label × Rat)) → Response)
+    (vt : VT) (raw : List (List Label × Rat)) (choices : List Pair)
+    (strength : Rat) (keep discard : Bool) (init : Option (List (Label × Rat))) (out : List HocRow)
+    (h : samplePoly child vt raw choices strength keep discard init = some out) :
+    ∃ (st : BK) (resp : Response),
+      (∀ r ∈ out, ∃ x ∈ resp.rows,
+          (discard = true → ∀ c ∈ st.constraints, x c.1.1 * x c.1.2 = x c.2)
+          ∧ r.cols = (if keep then resp.vars else polyVars (normPoly vt raw)).map (fun v => (v, x v))
+          ∧ r.energy = polyEnergy x (normPoly vt raw)
+          ∧ (r.sat = true ↔ (discard = true ∨ ∀ c ∈ st.constraints, x c.1.1 * x c.1.2 = x c.2)))
+      ∧ (∀ x ∈ resp.rows, (discard = false ∨ ∀ c ∈ st.constraints, x c.1.1 * x c.1.2 = x c.2) →
+          ∃ r ∈ out, r.cols = (if keep then resp.vars else polyVars (normPoly vt raw)).map (fun v => (v, x v))
+            ∧ r.energy = polyEnergy x (normPoly vt raw))
+      ∧ out.length = (resp.rows.filter (fun x => !discard || penaltySatisfied st.constraints x)).length :=
+  samplePoly_rows child vt raw choices strength keep discard init out h
+
+/-- what the child is called with: `make_quadratic(poly, penalty_strength, poly.vartype)` on a fresh model, and no
+    initial state when none was given -/
+theorem sample_poly_child_call (child : Bq Label → Option (List (Label × Rat)) → Response)
+    (vt : VT) (raw : List (List Label × Rat)) (choices : List Pair)
+    (strength : Rat) (keep discard : Bool) (init : Option (List (Label × Rat))) (out : List HocRow)
+    (h : samplePoly child vt raw choices strength keep discard init = some out) :
+    ∃ bag st auxs init', makeQuadratic [] vt strength raw choices = some (bag, st, auxs)
+      ∧ (init = none → init' = none)
+      ∧ out = polymorphResponse (normPoly vt raw) st.constraints keep discard (child ((Bq.empty vt : Bq Label).apply bag) init') :=
+  samplePoly_spec child vt raw choices strength keep discard init out h
+
+/-- **`expand_initial_state`**: the state handed to the child extends the given one (labels that are neither
+    product nor auxiliary variables keep their values) and is consistent — every product variable equals the
+    product of its two factors.  `FreshRed` = the names written by an entry are not read or written elsewhere
+    (guaranteed by `make_quadratic_names_fresh`). -/
+theorem expand_initial_state_consistent (b : Bq Label) (red : List (Pair × Label × Option Label)) (hf : FreshRed red)
+    (st st' : List (Label × Rat)) (h : expandInitialState b red st = some st') :
+    (∀ l, (∀ e ∈ red, l ≠ e.2.1 ∧ ∀ a, e.2.2 = some a → l ≠ a) → getKey st' l = getKey st l)
+    ∧ (∀ e ∈ red, ∃ su sv, getKey st' e.1.1 = some su ∧ getKey st' e.1.2 = some sv ∧ getKey st' e.2.1 = some (su * sv)) :=
+  expandInitialState_consistent b red hf st st' h
 
 /-! ## non-vacuity -/
 
